@@ -179,3 +179,168 @@ func checkC15MapComplete(c *Ctx, r *Rule) {
 		r.Bad(f.Name(), "column loop", f.Body.Pos(), "scanIntoMap no longer ranges over the columns; rule lost its anchor")
 	}
 }
+
+// C20.create-agree: CreateTable (fresh table) and AutoMigrate (existing table) must add the same kinds of
+// constraints under the same configuration switches, otherwise migrating the same model twice is not a
+// no-op (the second run adds what the first left out) and the two paths give different tables.  For each
+// constraint source (ParseCheckConstraints, ParseUniqueConstraints, ParseIndexes, Relationship.ParseConstraint)
+// the set of configuration flags that guard its use must be the same in both functions.
+func checkC20CreateAgree(c *Ctx) {
+	p := c.P
+	r := c.Rule("C20.create-agree", "CreateTable and AutoMigrate use every constraint source under the same configuration flags", 3)
+	schemaT := p.Named(pkgSchema, "Schema")
+	relT := p.Named(pkgSchema, "Relationship")
+	sources := map[*types.Func]string{
+		p.Method(schemaT, "ParseCheckConstraints"):  "check constraints",
+		p.Method(schemaT, "ParseUniqueConstraints"): "unique constraints",
+		p.Method(schemaT, "ParseIndexes"):           "indexes",
+		p.Method(relT, "ParseConstraint"):           "foreign-key constraints",
+	}
+	cfgT := p.Named(pkgGorm, "Config")
+	flagVars := map[*types.Var]bool{}
+	{
+		st := cfgT.Underlying().(*types.Struct)
+		for i := 0; i < st.NumFields(); i++ {
+			if b, ok := st.Field(i).Type().Underlying().(*types.Basic); ok && b.Kind() == types.Bool {
+				flagVars[st.Field(i)] = true
+			}
+		}
+	}
+	// flags guarding a position: conditions of the enclosing ifs (with polarity) that read a Config bool
+	guardFlags := func(f *FuncSrc, n ast.Node) string {
+		root := rootFunc(f)
+		var flags []string
+		var lits []*FuncSrc
+		for cur := f; cur != nil; cur = cur.Parent {
+			lits = append(lits, cur)
+		}
+		_ = root
+		pos := n.Pos()
+		for _, fs := range lits {
+			info := fs.Pkg.TypesInfo
+			ast.Inspect(fs.Body, func(x ast.Node) bool {
+				ifs, ok := x.(*ast.IfStmt)
+				if !ok {
+					return true
+				}
+				in := ifs.Body.Pos() <= pos && pos < ifs.Body.End()
+				inElse := ifs.Else != nil && ifs.Else.Pos() <= pos && pos < ifs.Else.End()
+				if !in && !inElse {
+					return true
+				}
+				bf := boolTable(info, ifs.Cond)
+				for name, e := range bf.exprs {
+					if se, ok := unparen(e).(*ast.SelectorExpr); ok {
+						if v, _ := info.Uses[se.Sel].(*types.Var); v != nil && flagVars[v] {
+							// polarity of the flag on this branch
+							wantT, _ := bf.forAll(map[string]bool{name: true}, !in)
+							wantF, _ := bf.forAll(map[string]bool{name: false}, !in)
+							switch {
+							case wantT && !wantF:
+								flags = append(flags, "!"+v.Name())
+							case wantF && !wantT:
+								flags = append(flags, v.Name())
+							default:
+								flags = append(flags, "?"+v.Name())
+							}
+						}
+					}
+				}
+				return true
+			})
+		}
+		sort.Strings(flags)
+		var uniq []string
+		for i, fl := range flags {
+			if i == 0 || fl != flags[i-1] {
+				uniq = append(uniq, fl)
+			}
+		}
+		return strings.Join(uniq, " && ")
+	}
+	type use struct {
+		f     *FuncSrc
+		call  *ast.CallExpr
+		flags string
+	}
+	collect := func(root *FuncSrc) map[string][]use {
+		out := map[string][]use{}
+		for _, f := range append([]*FuncSrc{root}, p.AllLits(root)...) {
+			info := f.Pkg.TypesInfo
+			for _, call := range callsIn(f) {
+				fn, _ := typeutil.Callee(info, call).(*types.Func)
+				kind, ok := sources[fn]
+				if !ok {
+					continue
+				}
+				// where the parsed constraints are USED: the range statement over the call or over the local holding it
+				usePos := ast.Node(call)
+				if id := assignedLocal(f, call); id != nil {
+					ast.Inspect(rootFunc(f).Body, func(x ast.Node) bool {
+						if rs, ok := x.(*ast.RangeStmt); ok {
+							if rid, ok := unparen(rs.X).(*ast.Ident); ok && rid.Name == id.Name && rs.Pos() > call.Pos() {
+								usePos = rs
+							}
+						}
+						return true
+					})
+				}
+				uf := f
+				if usePos != ast.Node(call) {
+					if e := p.EnclosingFunc(usePos.Pos()); e != nil {
+						uf = e
+					}
+				}
+				out[kind] = append(out[kind], use{uf, call, guardFlags(uf, usePos)})
+			}
+		}
+		return out
+	}
+	ct := p.MethodDecl(pkgMigrator, "Migrator", "CreateTable")
+	am := p.MethodDecl(pkgMigrator, "Migrator", "AutoMigrate")
+	c.Touch(ct)
+	c.Touch(am)
+	cu, au := collect(ct), collect(am)
+	var kinds []string
+	for k := range cu {
+		kinds = append(kinds, k)
+	}
+	sort.Strings(kinds)
+	n := 0
+	for _, k := range kinds {
+		if len(au[k]) == 0 {
+			continue
+		}
+		n++
+		cf, af := cu[k][0].flags, au[k][0].flags
+		r.Check(cf == af, ct.Name(), k+" guarded alike", cu[k][0].call.Pos(), "same configuration flags as AutoMigrate ("+af+")", "CreateTable adds "+k+" under `"+cf+"` but AutoMigrate adds them to an existing table under `"+af+"`: with those switches set a freshly created table lacks what the next AutoMigrate run adds (migrating the same model twice is not a no-op, and the table accepts rows the model forbids in between)")
+	}
+	if n < 3 {
+		r.Bad(ct.Name(), "constraint sources", ct.Body.Pos(), "fewer than three constraint sources are used by both CreateTable and AutoMigrate")
+	}
+}
+
+// assignedLocal: the identifier a call's result is assigned to (x := call / var x = call), if any.
+func assignedLocal(f *FuncSrc, call *ast.CallExpr) *ast.Ident {
+	var out *ast.Ident
+	ast.Inspect(f.Body, func(n ast.Node) bool {
+		switch x := n.(type) {
+		case *ast.AssignStmt:
+			for i, rhs := range x.Rhs {
+				if unparen(rhs) == ast.Expr(call) && i < len(x.Lhs) {
+					if id, ok := x.Lhs[i].(*ast.Ident); ok {
+						out = id
+					}
+				}
+			}
+		case *ast.ValueSpec:
+			for i, rhs := range x.Values {
+				if unparen(rhs) == ast.Expr(call) && i < len(x.Names) {
+					out = x.Names[i]
+				}
+			}
+		}
+		return true
+	})
+	return out
+}
